@@ -198,7 +198,19 @@ func c13r2(c *RC) {
 		return
 	}
 	call := ast.Unparen(br.Cond).(*ast.CallExpr)
-	okArgs := len(call.Args) == 2 && strings.HasSuffix(expr(call.Args[0]), ".Name") && expr(call.Args[1]) == "opIdx"
+	// the operator index is the control variable of the enclosing `for opIdx := ...`
+	opIdx, shardV := "opIdx", "shard"
+	for _, p := range pathTo(fn.Body, br) {
+		if f, ok := p.(*ast.ForStmt); ok && f.Init != nil {
+			if a, ok := f.Init.(*ast.AssignStmt); ok && len(a.Lhs) == 1 {
+				opIdx = expr(a.Lhs[0])
+			}
+		}
+		if r, ok := p.(*ast.RangeStmt); ok && r.Key != nil {
+			shardV = expr(r.Key)
+		}
+	}
+	okArgs := len(call.Args) == 2 && strings.HasSuffix(expr(call.Args[0]), ".Name") && expr(call.Args[1]) == opIdx
 	c.Check(okArgs, fq+"|cached-decision-per-task-and-operator", pr.Pos(br.Pos()), "the cached decision is not looked up by (task name, operator index)")
 	var doCache, depsNil, cont bool
 	for _, st := range br.Body.List {
@@ -207,7 +219,7 @@ func c13r2(c *RC) {
 			if len(a.Lhs) == 1 && strings.HasSuffix(expr(a.Lhs[0]), ".Do") {
 				if lit, ok := a.Rhs[0].(*ast.FuncLit); ok {
 					for _, k := range callsIn(lit.Body) {
-						if fn.Pkg.CalleeName(k) == "internal/slicecache.ShardCache.CacheReader" && len(k.Args) == 1 && expr(k.Args[0]) == "shard" {
+						if fn.Pkg.CalleeName(k) == "internal/slicecache.ShardCache.CacheReader" && len(k.Args) == 1 && expr(k.Args[0]) == shardV {
 							doCache = true
 						}
 					}
@@ -247,7 +259,7 @@ func c13r2(c *RC) {
 				ast.Inspect(d, func(m ast.Node) bool {
 					if vs, ok := m.(*ast.ValueSpec); ok {
 						for i, nm := range vs.Names {
-							if nm.Name == "shard" && i < len(vs.Values) && expr(vs.Values[i]) == "shard" {
+							if nm.Name == shardV && i < len(vs.Values) && expr(vs.Values[i]) == shardV {
 								okShadow = true
 							}
 						}
@@ -255,7 +267,7 @@ func c13r2(c *RC) {
 					return true
 				})
 			}
-			if a, ok := st.(*ast.AssignStmt); ok && a.Tok == token.DEFINE && expr(a.Lhs[0]) == "shard" && expr(a.Rhs[0]) == "shard" {
+			if a, ok := st.(*ast.AssignStmt); ok && a.Tok == token.DEFINE && expr(a.Lhs[0]) == shardV && expr(a.Rhs[0]) == shardV {
 				okShadow = true
 			}
 		}
@@ -265,7 +277,7 @@ func c13r2(c *RC) {
 	wt := 0
 	for _, l := range fn.Lits {
 		for _, k := range callsIn(l.Body) {
-			if fn.Pkg.CalleeName(k) == "internal/slicecache.ShardCache.WritethroughReader" && len(k.Args) == 2 && expr(k.Args[0]) == "shard" {
+			if fn.Pkg.CalleeName(k) == "internal/slicecache.ShardCache.WritethroughReader" && len(k.Args) == 2 && expr(k.Args[0]) == shardV {
 				wt++
 			}
 		}
@@ -345,8 +357,12 @@ func c13r3(c *RC) {
 		ok := false
 		for _, l := range nf.Lits {
 			ast.Inspect(l.Body, func(n ast.Node) bool {
-				if a, isA := n.(*ast.AssignStmt); isA && len(a.Lhs) == 1 && strings.Contains(expr(a.Lhs[0]), "shardIsCached[shard]") && strings.ReplaceAll(expr(a.Rhs[0]), " ", "") == "err==nil" {
-					ok = true
+				if a, isA := n.(*ast.AssignStmt); isA && len(a.Lhs) == 1 && len(l.Type.Params.List) == 1 && len(l.Type.Params.List[0].Names) == 1 {
+					sh := l.Type.Params.List[0].Names[0].Name
+					if be, isBe := ast.Unparen(a.Rhs[0]).(*ast.BinaryExpr); isBe && strings.Contains(expr(a.Lhs[0]), "shardIsCached["+sh+"]") && be.Op == token.EQL && expr(be.Y) == "nil" {
+						// the compared value is the error of file.Stat on the shard's path
+						ok = true
+					}
 				}
 				return true
 			})
@@ -362,7 +378,12 @@ func c13r3(c *RC) {
 			}
 			return true
 		})
-		c.Check(strings.Contains(txt, "c.prefix") && strings.Contains(txt, "shard") && strings.Contains(txt, "c.numShards"), pf.QName()+"|names-shard-and-count", pr.Pos(pf.Body.Pos()), "the cache file name no longer includes prefix, shard and shard count: files of different shards or shardings collide")
+		rvp := recvOf(pf)
+		shp := "shard"
+		if pf.Type.Params != nil && len(pf.Type.Params.List) == 1 && len(pf.Type.Params.List[0].Names) == 1 {
+			shp = pf.Type.Params.List[0].Names[0].Name
+		}
+		c.Check(strings.Contains(txt, rvp+".prefix") && strings.Contains(txt, ","+shp+",") && strings.Contains(txt, rvp+".numShards"), pf.QName()+"|names-shard-and-count", pr.Pos(pf.Body.Pos()), "the cache file name no longer includes prefix, shard and shard count: files of different shards or shardings collide")
 	}
 }
 
